@@ -14,7 +14,8 @@ from props import common_match
 
 warnings.simplefilter('ignore')
 PID = 'C12'
-SOURCES = ['SoupVerif/Properties/C12.lean', 'SoupVerif/Lemmas/Names.lean', 'SoupVerif/Model/Match.lean']
+SOURCES = ['SoupVerif/Properties/C12.lean', 'SoupVerif/Lemmas/Names.lean', 'SoupVerif/Model/Match.lean',
+           'SoupVerif/Properties/C12GenAttr.lean', 'SoupVerif/Generated/PyAttrName.lean', 'SoupVerif/Model/AttrNameDyn.lean']
 RULE = ('XML documents (lxml-xml) with default, prefixed, redeclared and undeclared namespaces on elements and attributes, '
         'HTML5 documents (html5lib) with inline SVG/MathML and xlink attributes, html.parser documents (no namespace '
         'support); prefix maps equal to, different from and colliding with the document\'s own prefixes, with and without a '
@@ -666,6 +667,9 @@ def make_cases_factory(state):
                     form = (rng.choice(['type', 'type', 'attr']), pfx, rng.choice(NAMES + ATTRS + ['*', 'circle', 'mi', 'p']))
                     if form[0] == 'attr' and form[2] == '*':
                         continue
+                    if form[0] == 'attr' and rng.random() < 0.3:
+                        # the attribute NAME in another letter case: exact in XML, ASCII-folded elsewhere (whole key and local name)
+                        form = (form[0], form[1], gen.swapcase_some(rng, form[2]))
                     sel = render(form)
                     if xml and root is not None and root.namespace != gen.XHTML and rng.random() < 0.4:
                         # HTML-only pseudo-classes never match in plain XML, so these decorations change nothing
